@@ -432,6 +432,92 @@ Example C10_approval_order_example :
   map fst (spav_round (rev v) []) = [1; 4; 3; 2]%positive.
 Proof. vm_compute. repeat split; reflexivity. Qed.
 
+(* ================================================================ symmetric candidates (the closing sentence of the property)
+   A symmetry of an input: an involution t of the candidates (t (t c) = c, e.g. a transposition) such that the renamed input is
+   the same dictionary in another insertion order.  Composing order independence with renaming equivariance
+   (Proofs/Symmetric_proofs.v): a and t a are elected alike and tied alike / hold the same seats. *)
+From VL Require Import Proofs.Symmetric_proofs.
+Close Scope Q_scope.
+Close Scope Z_scope.
+Open Scope nat_scope.
+
+Theorem C10_symmetric_copeland : forall t, (forall c, t (t c) = c) -> forall v second_order n,
+  NoDup (map fst v) -> Permutation v (renp t v) -> forall a,
+  (In (Cand a) (copeland second_order v n) <-> In (Cand (t a)) (copeland second_order v n)) /\
+  ((exists T, In (TieR T) (copeland second_order v n) /\ In a T) <-> (exists T, In (TieR T) (copeland second_order v n) /\ In (t a) T)).
+Proof. intros t Ht v so n Hn Hp. exact (copeland_symmetric t Ht v so n (conj Hn Hp)). Qed.
+
+Theorem C10_symmetric_minimax : forall t, (forall c, t (t c) = c) -> forall v s n,
+  NoDup (map fst v) -> Permutation v (renp t v) -> forall a,
+  (In (Cand a) (minimax s v n) <-> In (Cand (t a)) (minimax s v n)) /\
+  ((exists T, In (TieR T) (minimax s v n) /\ In a T) <-> (exists T, In (TieR T) (minimax s v n) /\ In (t a) T)).
+Proof. intros t Ht v s n Hn Hp. exact (minimax_symmetric t Ht v s n (conj Hn Hp)). Qed.
+
+Theorem C10_symmetric_schulze : forall t, (forall c, t (t c) = c) -> forall v order n,
+  NoDup (map fst v) -> Permutation v (renp t v) -> (forall p k, In (p, k) v -> (0 <= k)%Z) -> incl (candidates v) order -> forall a,
+  (In (Cand a) (schulze v order n) <-> In (Cand (t a)) (schulze v order n)) /\
+  ((exists T, In (TieR T) (schulze v order n) /\ In a T) <-> (exists T, In (TieR T) (schulze v order n) /\ In (t a) T)).
+Proof. intros t Ht v o n Hn Hp Hnn Hi. exact (schulze_symmetric t Ht v o n (conj Hn Hp) Hnn Hi). Qed.
+
+(* a candidate with a symmetric twin is never THE Condorcet winner; the Kemeny answer and the Smith set are invariant *)
+Theorem C10_symmetric_condorcet_winner : forall t, (forall c, t (t c) = c) -> forall v,
+  NoDup (map fst v) -> Permutation v (renp t v) -> forall c, In c (condorcet_winner v) -> t c = c.
+Proof. intros t Ht v Hn Hp. exact (condorcet_winner_symmetric t Ht v (conj Hn Hp)). Qed.
+
+Theorem C10_symmetric_kemeny : forall t, (forall c, t (t c) = c) -> forall v n,
+  NoDup (map fst v) -> Permutation v (renp t v) -> ren_cres t (kemeny v n) = kemeny v n.
+Proof. intros t Ht v n Hn Hp. exact (kemeny_symmetric t Ht v n (conj Hn Hp)). Qed.
+
+Theorem C10_symmetric_smith : forall t, (forall c, t (t c) = c) -> forall v,
+  NoDup (map fst v) -> Permutation v (renp t v) -> (forall p k, In (p, k) v -> (0 <= k)%Z) -> forall a,
+  In a (smith_schwartz v true) <-> In (t a) (smith_schwartz v true).
+Proof. intros t Ht v Hn Hp Hnn. exact (smith_symmetric t Ht v (conj Hn Hp) Hnn). Qed.
+
+(* seats: QuotaDistributor / LargestRemainder (caps with symmetric lookups), the STV count and highest averages (caps and,
+   for highest averages, previous gains listed symmetrically, e.g. absent) *)
+Theorem C10_symmetric_quota_distributor : forall t, (forall c, t (t c) = c) -> forall quota accept_equal pol votes n prev caps s,
+  quota_ext quota -> NoDup (map fst votes) -> Permutation votes (renl t votes) -> NoDup (map fst prev) -> Permutation prev (renl t prev) ->
+  (forall c, dget caps (t c) = dget caps c) ->
+  qd_evaluate quota accept_equal pol votes n prev caps = QD_ok s -> forall a, kdget s (t a) = kdget s a.
+Proof. intros t Ht. exact (quota_distributor_symmetric t Ht). Qed.
+
+Theorem C10_symmetric_largest_remainder : forall t, (forall c, t (t c) = c) -> forall quota accept_equal pol votes n prev caps s,
+  quota_ext quota -> NoDup (map fst votes) -> Permutation votes (renl t votes) -> NoDup (map fst prev) -> Permutation prev (renl t prev) ->
+  (forall c, dget caps (t c) = dget caps c) ->
+  lr_evaluate quota accept_equal pol votes n prev caps = LR_ok s -> forall a, kdget s (t a) = kdget s a.
+Proof. intros t Ht. exact (largest_remainder_symmetric t Ht). Qed.
+
+Theorem C10_symmetric_stv : forall t, (forall c, t (t c) = c) -> forall cf votes n prev caps,
+  ballots_distinct votes -> Permutation votes (renv t votes) -> NoDup (map fst prev) -> Permutation prev (renl t prev) -> renl t caps = caps ->
+  forall a, dget (t_seats (stv cf votes n prev caps)) (t a) = dget (t_seats (stv cf votes n prev caps)) a.
+Proof. intros t Ht. exact (stv_symmetric t Ht). Qed.
+
+Theorem C10_symmetric_highest_averages : forall t, (forall c, t (t c) = c) -> forall (d : Z -> Q) votes n prev caps,
+  divisor_ok d -> (forall c v, In (c, v) votes -> (0 <= v)%Q) -> NoDup (map fst votes) -> (forall c, (0 <= dget_or prev c 0)%Z) ->
+  Permutation votes (renl t votes) -> renl t prev = prev -> renl t caps = caps ->
+  forall a, dget_or (st_totals (final_state d votes n prev caps)) (t a) 0%Z = dget_or (st_totals (final_state d votes n prev caps)) a 0%Z.
+Proof. intros t Ht. exact (highest_averages_symmetric t Ht). Qed.
+
+(* non-vacuity: the transposition (1 2); a pairwise dictionary in which 1 and 2 are symmetric (they tie each other, both beat 3) *)
+Definition swap12 (c : C) : C := if (c =? 1)%positive then 2%positive else if (c =? 2)%positive then 1%positive else c.
+Lemma swap12_involutive : forall c, swap12 (swap12 c) = c.
+Proof.
+  intros c. unfold swap12. destruct (c =? 1)%positive eqn:E1; [apply Pos.eqb_eq in E1; subst; reflexivity|].
+  destruct (c =? 2)%positive eqn:E2; [apply Pos.eqb_eq in E2; subst; reflexivity|]. rewrite E1, E2. reflexivity.
+Qed.
+Example C10_symmetric_example :
+  let v := mk_pv [(1,2,2);(2,1,2);(1,3,3);(3,1,1);(2,3,3);(3,2,1)]%Z in
+  NoDup (map fst v) /\ Permutation v (renp swap12 v) /\ renp swap12 v <> v /\
+  copeland false v 1 = [TieR [1; 2]]%positive /\ schulze v [1; 2; 3]%positive 2 = [Cand 1; Cand 2]%positive /\
+  Permutation [(1%positive, 5#1); (2%positive, 5#1); (3%positive, 2#1)]%Q (renl swap12 [(1%positive, 5#1); (2%positive, 5#1); (3%positive, 2#1)]%Q) /\
+  lr_evaluate (quota_fn (QNamed 1)) true PSubtract [(1%positive, 5#1); (2%positive, 5#1); (3%positive, 2#1)]%Q 3 [] []
+    = LR_ok [(K 1%positive, 1%Z); (K 2%positive, 1%Z); (K 3%positive, 1%Z)].
+Proof.
+  cbv zeta. split; [apply nodup_keys_b_sound; vm_compute; reflexivity|].
+  split; [apply list_perm_b_sound; vm_compute; reflexivity|]. split; [vm_compute; discriminate|].
+  split; [vm_compute; reflexivity|]. split; [vm_compute; reflexivity|]. split; [vm_compute; apply perm_swap|vm_compute; reflexivity].
+Qed.
+
 (* "f : C -> C injective" is no restriction with respect to "injective on the candidates present": a function injective on a
    finite set S agrees on S with a globally injective one (and renaming an input only applies f to the candidates present) *)
 Theorem C10_rename_injective_extension : forall (f : C -> C) (S : list C),
@@ -519,3 +605,13 @@ Print Assumptions C10_rename_pav_exact_refuted.
 Print Assumptions C10_rename_injective_extension.
 Print Assumptions C10_pav_order.
 Print Assumptions C10_spav_order.
+Print Assumptions C10_symmetric_copeland.
+Print Assumptions C10_symmetric_minimax.
+Print Assumptions C10_symmetric_schulze.
+Print Assumptions C10_symmetric_condorcet_winner.
+Print Assumptions C10_symmetric_kemeny.
+Print Assumptions C10_symmetric_smith.
+Print Assumptions C10_symmetric_quota_distributor.
+Print Assumptions C10_symmetric_largest_remainder.
+Print Assumptions C10_symmetric_stv.
+Print Assumptions C10_symmetric_highest_averages.
